@@ -11,6 +11,14 @@ package main
 //	                                            that returns 1 / 7 / all bytes per Read (or data together with EOF)
 //	                                            → <item>… [err:<class>] n=<BytesRead> c=<bytes taken from the reader>
 //
+//	C07 sencw <curve> <raw> <budgets,> <items…>  Encode calls on ONE Encoder whose writer accepts the byte budgets one after
+//	                                            the other (a Write that exceeds the current budget gets the bytes that fit
+//	                                            and an error, the writer goes on with the next budget; none left: every
+//	                                            Write fails) → <ok|err per call,> w=<bytes accepted> <hex accepted>
+//	C07 sencn <curve> <raw> <budgets,> <items…>  same history → n=<advance of BytesWritten per call,>; a call whose advance
+//	                                            differs from the bytes accepted is shown as
+//	                                            <accepted>!<difference>@<len of the failed Write>:<accepted of it>
+//
 // histories on re-used destinations (the by-value model answers for the LAST stream only):
 //	C07 dec  … <pt>><hex>                       the receiver / Decode target holds <pt> before the call
 //	C07 sdec … <hexA>><hexB>[><hexC>…]           every stream is decoded (fresh Decoder each) into the SAME destination
@@ -247,6 +255,11 @@ func execC07(a []string) string {
 			return "bad-op"
 		}
 		return c07Senc(c, a[2] == "1", a[3:])
+	case "sencw", "sencn":
+		if len(a) < 5 || !c.hasStream {
+			return "bad-op"
+		}
+		return c07SencFail(c, a[0] == "sencn", a[2] == "1", a[3], a[4:])
 	case "sdec":
 		if len(a) != 6 || !c.hasStream {
 			return "bad-op"
@@ -523,6 +536,89 @@ func c07Senc(c *c07Curve, raw bool, items []string) string {
 		return fmt.Sprintf("inconsistent:written %d %d", n(), buf.Len())
 	}
 	return fmt.Sprintf("%x %s", n(), hexBytes(buf.Bytes()))
+}
+
+// io.Writer with byte budgets: accepts bytes until the current budget is used up; the Write that asks for more gets
+// the bytes that fit and errC07Write, and the writer goes on with the next budget. No budget left: every non-empty
+// Write fails with nothing accepted. It follows the io.Writer contract (n < len(p) only together with an error).
+type c07Sink struct {
+	budgets []int
+	got     []byte
+	calls   [][2]int // per Write: len(p), accepted
+	failLen int      // the last failed Write: len(p), accepted
+	failAcc int
+}
+
+var errC07Write = errors.New("c07: writer failed")
+
+func (s *c07Sink) Write(p []byte) (int, error) {
+	if len(p) == 0 {
+		return 0, nil
+	}
+	if len(s.budgets) == 0 {
+		s.failLen, s.failAcc = len(p), 0
+		return 0, errC07Write
+	}
+	b := s.budgets[0]
+	if len(p) <= b {
+		s.budgets[0] = b - len(p)
+		s.got = append(s.got, p...)
+		s.calls = append(s.calls, [2]int{len(p), len(p)})
+		return len(p), nil
+	}
+	s.budgets = s.budgets[1:]
+	s.got = append(s.got, p[:b]...)
+	s.calls = append(s.calls, [2]int{len(p), b})
+	s.failLen, s.failAcc = len(p), b
+	return b, errC07Write
+}
+
+func c07ParseBudgets(s string) ([]int, bool) {
+	if s == "-" {
+		return nil, true
+	}
+	var r []int
+	for _, t := range strings.Split(s, ",") {
+		v, ok := new(big.Int).SetString(t, 16)
+		if !ok || !v.IsInt64() || v.Sign() < 0 || v.Int64() > 1<<40 {
+			return nil, false
+		}
+		r = append(r, int(v.Int64()))
+	}
+	return r, true
+}
+
+func c07SencFail(c *c07Curve, counter, raw bool, buds string, items []string) string {
+	budgets, ok := c07ParseBudgets(buds)
+	if !ok {
+		return "bad-op"
+	}
+	sink := &c07Sink{budgets: budgets}
+	enc, n := c.newEncoder(sink, raw)
+	var flags, ns []string
+	for _, it := range items {
+		v, ok := c07EncArg(c, it)
+		if !ok {
+			return "bad-op"
+		}
+		n0, w0 := n(), len(sink.got)
+		err := enc(v)
+		dn, dw := int(n()-n0), len(sink.got)-w0
+		if err != nil {
+			flags = append(flags, "err")
+		} else {
+			flags = append(flags, "ok")
+		}
+		if dn == dw {
+			ns = append(ns, fmt.Sprintf("%x", dw))
+		} else {
+			ns = append(ns, fmt.Sprintf("%x!%+d@%d:%d", dw, dn-dw, sink.failLen, sink.failAcc))
+		}
+	}
+	if counter {
+		return "n=" + strings.Join(ns, ",")
+	}
+	return fmt.Sprintf("%s w=%x %s", strings.Join(flags, ","), len(sink.got), hexBytes(sink.got))
 }
 
 // byte source with a read position and the reader behaviours of testing/iotest, without read-ahead:
@@ -1300,6 +1396,8 @@ func (x *c07Gen) streamOps(first bool) {
 	x.historyOps()
 	// call histories on ONE Decoder / ONE Encoder object
 	x.decoderHistoryOps()
+	// Encoder on a writer that fails
+	x.failingWriterOps(first)
 	// 4. adversarial length prefixes (capped: the decoder allocates before reading, finding iv)
 	for _, ty := range all {
 		if !strings.HasSuffix(ty, "s") && !strings.HasSuffix(ty, "v") && !strings.HasSuffix(ty, "sp") {
@@ -1316,6 +1414,190 @@ func (x *c07Gen) streamOps(first bool) {
 			x.emitSdec(true, "7", []string{ty}, append(b, pad...))
 		}
 	}
+}
+
+// ---- Encoder.Encode on a writer that fails (ops sencw / sencn)
+
+// sizes of the Write calls the library makes for the items on a writer that accepts everything
+func (x *c07Gen) writeSizes(raw bool, items []string) []int {
+	sink := &c07Sink{budgets: []int{1 << 30}}
+	enc, _ := x.c.newEncoder(sink, raw)
+	for _, it := range items {
+		v, ok := c07EncArg(x.c, it)
+		if !ok {
+			panic("c07 generator: bad item " + it)
+		}
+		if err := enc(v); err != nil {
+			panic(err)
+		}
+	}
+	r := make([]int, len(sink.calls))
+	for i, cl := range sink.calls {
+		r[i] = cl[0]
+	}
+	return r
+}
+
+func (x *c07Gen) emitFail(raw bool, budgets []int, items []string) {
+	bs := "-"
+	if len(budgets) > 0 {
+		t := make([]string, len(budgets))
+		for i, b := range budgets {
+			t[i] = fmt.Sprintf("%x", b)
+		}
+		bs = strings.Join(t, ",")
+	}
+	for _, op := range []string{"sencw", "sencn"} {
+		x.g.emit("C07 %s %s %s %s %s", op, x.c.name, boolStr(raw), bs, strings.Join(items, " "))
+	}
+}
+
+// the failure points worth trying for a history of Write calls of the given sizes: every k (all), or around every
+// boundary between two Write calls, every position inside a 4-byte length prefix, and a few random ones
+func (x *c07Gen) failPoints(sizes []int, all bool) []int {
+	total := 0
+	for _, s := range sizes {
+		total += s
+	}
+	seen := map[int]bool{}
+	var ks []int
+	add := func(k int) {
+		if k >= 0 && k <= total+1 && !seen[k] {
+			seen[k] = true
+			ks = append(ks, k)
+		}
+	}
+	if all {
+		for k := 0; k <= total+1; k++ {
+			add(k)
+		}
+		return ks
+	}
+	b := 0
+	for _, s := range sizes {
+		add(b - 1)
+		add(b)
+		add(b + 1)
+		if s == 4 {
+			add(b + 2)
+			add(b + 3)
+		}
+		b += s
+	}
+	add(total - 1)
+	add(total)
+	add(total + 1)
+	for i := 0; i < 3; i++ {
+		add(x.g.rng.intn(total + 1))
+	}
+	sort.Ints(ks)
+	return ks
+}
+
+// one value (or a history of values) against: the writer that accepts exactly k bytes and fails for ever; the writer
+// that fails once after k bytes and then works again; the writer that fails twice
+func (x *c07Gen) failAt(raw bool, items []string, all bool) {
+	sizes := x.writeSizes(raw, items)
+	rg := x.g.rng
+	for _, k := range x.failPoints(sizes, all) {
+		x.emitFail(raw, []int{k}, items)
+		if len(sizes) > 1 {
+			x.emitFail(raw, []int{k, 1 << 20}, items)
+			if rg.intn(4) == 0 {
+				x.emitFail(raw, []int{k, rg.intn(2 * sizes[len(sizes)-1]), 1 << 20}, items)
+			}
+		}
+	}
+}
+
+func (x *c07Gen) failingWriterOps(first bool) {
+	c := x.c
+	rg := x.g.rng
+	all := x.types()
+	every := first || x.g.thorough()
+	// 1. every type Encode supports, both encoders, a value of the generic shape: every failure point (first curve and
+	// thorough tier) / every Write boundary ±1 and every position of every length prefix
+	for _, ty := range all {
+		for rep := 0; rep < x.g.budget(1, 3); rep++ {
+			it := x.item(ty, true)
+			for _, raw := range []bool{false, true} {
+				x.failAt(raw, []string{it}, every)
+			}
+		}
+	}
+	// 2. longer slices and nested vectors of fixed shapes with empty inner vectors at the end, in the middle and at
+	// the start (a later successful Write must not hide the failure of an earlier one)
+	fr := func() string { return hexBig(x.smallElem(c.fr.modulus)) }
+	frs := func(n int) string {
+		if n == 0 {
+			return "-"
+		}
+		t := make([]string, n)
+		for i := range t {
+			t[i] = fr()
+		}
+		return strings.Join(t, ",")
+	}
+	frss := func(shape ...int) string {
+		if len(shape) == 0 {
+			return "="
+		}
+		t := make([]string, len(shape))
+		for i, n := range shape {
+			t[i] = frs(n)
+		}
+		return strings.Join(t, "/")
+	}
+	long := []string{"frs:" + frs(9), "fps:" + frs(3), "g1s:" + c07ShowPts(x.pts(c.g1, 5))}
+	if c.g2 != nil {
+		long = append(long, "g2s:"+c07ShowPts(x.pts(c.g2, 3)))
+	}
+	if c.fullTypes {
+		long = append(long,
+			"frss:"+frss(2, 0, 1), "frss:"+frss(1, 0), "frss:"+frss(0, 3, 0, 0), "frss:"+frss(1, 1, 1, 1, 1),
+			"frsss:"+frss(1, 2)+"+"+frss()+"+"+frss(0, 1), "frsss:"+frss(2)+"+"+frss(0), "frsss:"+frss(0, 0)+"+"+frss(1, 0)+"+"+frss(),
+			"frv:"+frs(6), "frvp:"+frs(5), "fpv:"+frs(2),
+			"u64s:"+c07Show1(c07BigU64s([]uint64{rg.u64(), 0, rg.u64() >> 30, 1, 2, 3, 4})),
+			"u64ss:"+c07Show2([][]*big.Int{c07BigU64s([]uint64{rg.u64(), 5}), {}, c07BigU64s([]uint64{7}), {}}),
+			"g1sp:"+c07ShowPts(x.pts(c.g1, 4)))
+	}
+	for _, it := range long {
+		for _, raw := range []bool{false, true} {
+			x.failAt(raw, []string{it}, false)
+		}
+	}
+	// 3. histories on ONE Encoder: several Encode calls of mixed types; the writer fails inside / between any of the
+	// calls, once, twice or for ever; the calls after a failed one go on
+	for rep := 0; rep < x.g.budget(3, 10); rep++ {
+		n := 2 + rg.intn(4)
+		var items []string
+		for i := 0; i < n; i++ {
+			items = append(items, x.item(all[rg.intn(len(all))], true))
+		}
+		raw := rg.coin()
+		x.failAt(raw, items, false)
+		sizes := x.writeSizes(raw, items)
+		total := 0
+		for _, s := range sizes {
+			total += s
+		}
+		for j := 0; j < x.g.budget(4, 12); j++ {
+			var bud []int
+			for left := total; left > 0 && len(bud) < 5; {
+				k := rg.intn(left + 1)
+				if rg.intn(3) == 0 {
+					k = rg.intn(6)
+				}
+				bud = append(bud, k)
+				left -= k
+			}
+			if rg.coin() {
+				bud = append(bud, 1<<20)
+			}
+			x.emitFail(raw, bud, items)
+		}
+	}
+	x.emitFail(false, nil, []string{x.item("fr", true), x.item("u8", true)})
 }
 
 // non-canonical field element (= q, or all ones) at every element position of []fr, [][]fr, [][][]fr, []fp
